@@ -122,6 +122,13 @@ def misc_program(rng, far=False):
         # also far *backward*: a call/tail placed after the gap
         items += [{'k': 'pseudo', 'm': 'call', 'ops': [{'t': 'A'}]}, {'k': 'pseudo', 'm': 'tail', 'ops': [{'t': 'B'}]},
                   {'k': 'pseudo', 'm': 'call', 'ops': [{'t': 'FAR'}]}]
+    if rng.random() < 0.3:
+        # labels whose names are numbers (accepted), next to `li` of the same number as a literal: a literal is a literal
+        for nm in rng.sample(['2', '8', '4096', '100', '0x10'], 2):
+            k = rng.randrange(2, len(items))
+            items.insert(k, {'k': 'label', 'name': nm})
+            items.insert(k + 1, {'k': 'pseudo', 'm': 'li', 'ops': [R(), {'i': int(nm, 0)}]})
+            items.insert(rng.randrange(2, len(items)), {'k': 'pseudo', 'm': 'li', 'ops': [R(), {'x': [nm, int(nm, 0)]}]})
     if trailing:
         items.append({'k': 'label', 'name': 'Z'})
     if rng.random() < 0.4:
@@ -259,6 +266,11 @@ def run_case(asm, acc, case):
             # the address comes in through the caller's label table instead (an external symbol: `labels={'main': 0x20000000}`)
             extern = {it['name']: it['value'] for it in items if it['k'] == 'const'}
             items = [it for it in items if it['k'] != 'const']
+            if case['idx'] % 4 == 1:
+                # the environment's symbol table may hold names that look like registers (`x5`, `t0`, `s0`): in a register
+                # position they are still registers
+                extern.update({'x5': 0x20000000, 'x8': 9, 't0': 12, 's0': 0x1234})
+                items = items[:-1] + [{'k': 'pseudo', 'm': 'mv', 'ops': [{'r': 5}, {'r': 8}]}, {'k': 'pseudo', 'm': 'neg', 'ops': [{'r': 8}, {'r': 5}]}] + items[-1:]
             preseed = {'labels': dict(extern)}
             acc['ctr']['programs_with_an_external_symbol'] += 1
         ex = progcheck.examine(asm, items, compress, seed='%s-%d' % (case['kind'], case['idx']), nregs=case.get('nregs', 5), lines=lines, preseed=preseed, extern=extern)
